@@ -122,11 +122,14 @@ def addCore (s1 : State) (e : Event) : AddResult :=
         | some s5 => .ok s5 true
       else .ok s4 true
 
-/-- `add_event` after validation/authorisation: one transaction -/
+/-- `add_event` after validation/authorisation: one transaction.  `pre_save` returns False for an
+    already stored (resubmitted) replaceable event, which skips the insert altogether. -/
 def addEvent (s : State) (e : Event) : AddResult :=
-  match preSave s e with
-  | none => .raises
-  | some s1 => addCore s1 e
+  if (isReplaceable e.kind || isParamReplaceable e.kind) && s.events.any (fun r => r.id == e.id) then .ok s false
+  else
+    match preSave s e with
+    | none => .raises
+    | some s1 => addCore s1 e
 
 /-- `QueryGarbageCollector.collect`: ephemeral kinds, or an expiration tag row whose value is
     *string*-smaller than `str(now)` -/
